@@ -40,9 +40,9 @@ fn establish_tuple(seed: u64, tier: Tier) {
         Bal(u64, u64),
         Ctx(usize),
     }
-    let mut alts = vec![Alt::Cid, Alt::Bal(11, 1000), Alt::Bal(9, 1000), Alt::Bal(10, 1001), Alt::Bal(10, 999), Alt::Bal(1000, 10), Alt::Ctx(0), Alt::Ctx(16)];
+    let mut alts = vec![Alt::Cid, Alt::Bal(11, 1000), Alt::Bal(9, 1000), Alt::Bal(10, 1001), Alt::Bal(10, 999), Alt::Bal(1000, 10), Alt::Ctx(0), Alt::Ctx(1), Alt::Ctx(3)];
     if tier == Tier::Thorough {
-        alts.extend(vec![Alt::Bal(0, 1010), Alt::Bal(1010, 0), Alt::Ctx(1)]);
+        alts.extend(vec![Alt::Bal(0, 1010), Alt::Bal(1010, 0), Alt::Ctx(2), Alt::Ctx(4)]);
     }
     for alt in alts {
         sx::begin(vec![], DrawMode::NonDegenerate, seed);
@@ -55,9 +55,9 @@ fn establish_tuple(seed: u64, tier: Tier) {
             Alt::Cid => (sym_channel_id("other_cid").0, 10, 1000, e.ctx, "channel id".into()),
             Alt::Bal(c, m) => (e.cid, c, m, e.ctx, format!("balances (10,1000)->({},{})", c, m)),
             Alt::Ctx(p) => {
-                let mut b = b"establish context".to_vec();
-                b[p] ^= 1;
-                (e.cid, 10, 1000, Context::new(&b), format!("context byte {}", p))
+                let vs = context_variants(b"establish context", &[0, 16, 1]);
+                let (what, b) = vs[p.min(vs.len() - 1)].clone();
+                (e.cid, 10, 1000, Context::new(&b), what)
             }
         };
         let (pa, pb): (Proof, Proof) = (decode(&honest).unwrap(), decode(&honest).unwrap());
@@ -116,9 +116,9 @@ fn pay_tuple(seed: u64, tier: Tier) {
         Amount(i64),
         Ctx(usize),
     }
-    let mut alts = vec![Alt::Nonce, Alt::Amount(8), Alt::Amount(6), Alt::Amount(-7), Alt::Amount(0), Alt::Ctx(0), Alt::Ctx(10)];
+    let mut alts = vec![Alt::Nonce, Alt::Amount(8), Alt::Amount(6), Alt::Amount(-7), Alt::Amount(0), Alt::Ctx(0), Alt::Ctx(1), Alt::Ctx(3)];
     if tier == Tier::Thorough {
-        alts.extend(vec![Alt::Amount(i64::MAX), Alt::Amount(-i64::MAX), Alt::Ctx(1)]);
+        alts.extend(vec![Alt::Amount(i64::MAX), Alt::Amount(-i64::MAX), Alt::Ctx(2), Alt::Ctx(4)]);
     }
     for alt in alts {
         sx::begin(vec![], DrawMode::NonDegenerate, seed);
@@ -127,9 +127,9 @@ fn pay_tuple(seed: u64, tier: Tier) {
             Alt::Nonce => (decode(&sym_scalar("other_nonce").to_bytes()).unwrap(), 7, e.pctx, "nonce".into()),
             Alt::Amount(a) => (e.nonce, a, e.pctx, format!("amount 7->{}", a)),
             Alt::Ctx(p) => {
-                let mut b = b"pay context".to_vec();
-                b[p] ^= 1;
-                (e.nonce, 7, Context::new(&b), format!("context byte {}", p))
+                let vs = context_variants(b"pay context", &[0, 10, 1]);
+                let (what, b) = vs[p.min(vs.len() - 1)].clone();
+                (e.nonce, 7, Context::new(&b), what)
             }
         };
         let pa: PProof = decode(&e.bytes).unwrap();
